@@ -138,6 +138,14 @@ def mk_ops(rng, B, rem_bits, leafs, which=None):
     for v in (1, -1, 5, 1 << 64):
         add('store_uint(out of range)', lambda b, v=v: b.store_uint(v, 0), None, valid=False)
         add('store_int(out of range)', lambda b, v=v: b.store_int(v, 0), None, valid=False)
+    # a single bit holds 0 or 1: every other integer (or digit) through each of the three single-bit entry points does not fit the width
+    if rem_bits >= 1:
+        for v in (2, -1, 3, 255, 256, -2, 1 << 64):
+            add('store_bit(out of range)', lambda b, v=v: b.store_bit(v), None, valid=False)
+            add('store_bit_int(out of range)', lambda b, v=v: b.store_bit_int(v), None, valid=False)
+            add('store_bool(out of range)', lambda b, v=v: b.store_bool(v), None, valid=False)
+        for v in ('2', '7', '9'):
+            add('store_bit(digit out of range)', lambda b, v=v: b.store_bit(v), None, valid=False)
     # an external address whose value does not fit its declared length (len:(## 9) external_address:(bits len)), zero length included
     from pytoniq_core.boc.address import ExternalAddress
     for ln, v in ((0, 5), (0, 1), (1, 2), (3, 8), (8, 256), (9, 1 << 20), (511, 1 << 511), (4, -1)):
